@@ -1,4 +1,5 @@
 import Driver.QC
+import Driver.Sort
 /-!
   The model driver (line protocol, DESIGN.md 3.5): reads one case per line on
   stdin, runs the executable Lean model, prints what it predicts.
@@ -20,4 +21,5 @@ def main (args : List String) : IO UInt32 := do
   let stdin ← IO.getStdin
   match args with
   | ["qc"] => loop stdin qcLine; return 0
+  | ["sort"] => loop stdin sortLine; return 0
   | _ => IO.eprintln "usage: driver <engine>"; return 2
